@@ -441,6 +441,132 @@ Section Reset.
       destruct (pos + 1 >=? zlen l); reflexivity.
   Qed.
 
+  (** ** classes whose state is counters only, with scalar parameters: what PReset may restart *)
+  Definition flat (p : pat) : bool :=
+    match p with
+    | PConstant _ => true
+    | PSequence (AL l) (AV _) _ _ => scalars l
+    | PSeries _ _ (AV _) (AV _) _ => true
+    | PRange _ (AV _) (AV _) _ => true
+    | PGeom _ _ (AV _) _ _ => true
+    | PImpulse (AV _) _ => true
+    | _ => false
+    end.
+
+  Ltac flat_shape Hf :=
+    repeat match type of Hf with
+           | context [match ?x with _ => _ end] => is_var x; destruct x; try discriminate Hf
+           end.
+
+  Ltac goal_split :=
+    repeat (match goal with
+            | |- context [match obind ?a ?k with _ => _ end] => destruct (obind a k)
+            | |- context [match cmp ?a ?b ?c with _ => _ end] => destruct (cmp a b c)
+            | |- context [match Val.binop ?a ?b ?c with _ => _ end] => destruct (Val.binop a b c)
+            | |- context [if ?x then _ else _] => is_var x; destruct x
+            | |- context [match ?x with _ => _ end] => is_var x; destruct x
+            end; cbn).
+
+  Lemma flat_closed f p : flat p = true -> flat (snd (step f p)) = true.
+  Proof.
+    intro Hf. destruct f as [|f]; [exact Hf|]. destruct p; try discriminate Hf.
+    - reflexivity.
+    - destruct sequence as [| |l| |]; try discriminate Hf. destruct repeats as [vrep| | | |]; try discriminate Hf.
+      cbn in Hf. destruct f as [|f]; [exact Hf|]. cbn.
+      destruct (if zlen l =? 0 then Yield true else cmp OGe (VInt rcount) vrep) as [[|]| | | |]; try exact Hf.
+      destruct (py_index l pos) as [a|] eqn:Ei; [|exact Hf].
+      destruct (scalars_index _ _ _ Hf Ei) as [v ->]. cbn. rewrite (py_index_update _ _ _ Ei).
+      destruct (pos + 1 >=? zlen l); exact Hf.
+    - cbn in Hf. flat_shape Hf. destruct f; cbn; goal_split; reflexivity.
+    - cbn in Hf. flat_shape Hf. destruct f; cbn; goal_split; reflexivity.
+    - cbn in Hf. flat_shape Hf. destruct f; cbn; goal_split; reflexivity.
+    - cbn in Hf. flat_shape Hf. destruct f; cbn; goal_split; reflexivity.
+  Qed.
+
+  Ltac goal_split2 :=
+    cbv beta iota zeta;
+    repeat (match goal with
+            | |- context [match obind ?a ?k with _ => _ end] => destruct (obind a k)
+            | |- context [match cmp ?a ?b ?c with _ => _ end] => destruct (cmp a b c)
+            | |- context [match Val.binop ?a ?b ?c with _ => _ end] => destruct (Val.binop a b c)
+            | |- context [if ?x then _ else _] => is_var x; destruct x
+            | |- context [match ?x with _ => _ end] => is_var x; destruct x
+            end; cbv beta iota zeta).
+
+  Lemma flat_reset_step f f' p : flat p = true -> reset f (snd (step f' p)) = reset f p.
+  Proof.
+    intro Hf. destruct f' as [|f']; [reflexivity|]. destruct f as [|f]; [reflexivity|]. destruct p; try discriminate Hf.
+    - reflexivity.
+    - apply leaf_reset_step. exact Hf.
+    - cbn in Hf. flat_shape Hf. rewrite step_series_eq. destruct f'; [reflexivity|]. rewrite !value_scalar. goal_split2; reflexivity.
+    - cbn in Hf. flat_shape Hf. rewrite step_range_eq. destruct f'; [reflexivity|]. rewrite !value_scalar. goal_split2; reflexivity.
+    - cbn in Hf. flat_shape Hf. rewrite step_geom_eq. destruct f'; [goal_split2; reflexivity|]. rewrite !value_scalar. goal_split2; reflexivity.
+    - cbn in Hf. flat_shape Hf. rewrite step_impulse_eq. destruct f'; [reflexivity|]. rewrite !value_scalar. goal_split2; reflexivity.
+  Qed.
+
+  (** reset() of such an object is again one, and resetting it again changes nothing *)
+  Lemma flat_reset_reset f1 p q : flat p = true -> reset f1 p = Yield q ->
+    flat q = true /\ forall f0, reset f0 q = reset f0 p.
+  Proof.
+    intros Hf H. destruct f1 as [|f1]; [discriminate|]. destruct p; try discriminate Hf.
+    - inversion H; subst. split; [reflexivity|reflexivity].
+    - destruct sequence as [| |l| |]; try discriminate Hf. destruct repeats as [vrep| | | |]; try discriminate Hf.
+      cbn in Hf. cbn in H. rewrite (mapM_reset_scalars _ _ Hf) in H. cbn in H. inversion H; subst.
+      split; [exact Hf|]. intros [|f0]; [reflexivity|]. cbn. rewrite (mapM_reset_scalars _ _ Hf). reflexivity.
+    - cbn in Hf. flat_shape Hf. cbn in H. inversion H; subst. split; [reflexivity|]. intros [|f0]; reflexivity.
+    - cbn in Hf. flat_shape Hf. cbn in H. inversion H; subst. split; [reflexivity|]. intros [|f0]; reflexivity.
+    - cbn in Hf. flat_shape Hf. cbn in H. inversion H; subst. split; [reflexivity|]. intros [|f0]; reflexivity.
+    - cbn in Hf. flat_shape Hf. cbn in H. inversion H; subst. split; [reflexivity|]. intros [|f0]; reflexivity.
+  Qed.
+
+  Lemma step_preset_eq f pattern trigger :
+    step (S f) (PReset pattern trigger) =
+      (let '(ot, trigger') := anext f trigger in
+          match ot with
+          | Yield vt =>
+              match (if is_none vt then Yield false else cmp OGt vt (VInt 0)) with
+              | Yield fire =>
+                  let opat := if fire then areset_strict binop LMAX f pattern else Yield pattern in
+                  match opat with
+                  | Yield pattern1 =>
+                      let '(o, pattern2) := anext f pattern1 in
+                      (o, PReset pattern2 trigger')
+                  | o => (ocast o, PReset pattern trigger')
+                  end
+              | oc => (ocast oc, PReset pattern trigger')
+              end
+          | _ => (ot, PReset pattern trigger')
+          end).
+  Proof. reflexivity. Qed.
+
+  Lemma reset_preset_eq f p t : reset (S f) (PReset p t) = fld f p (fun p' => fld f t (fun t' => Yield (PReset p' t'))).
+  Proof. reflexivity. Qed.
+
+  Lemma areset_strict_pattern f p : areset_strict binop LMAX (S f) (AP p) = omap AP (reset f p).
+  Proof. reflexivity. Qed.
+
+  (** one next() of PReset over such an object: the object inside is again one, with the same reset() *)
+  Lemma preset_step f p t : flat p = true ->
+    exists o p', step (S f) (PReset (AP p) t) = (o, PReset (AP p') (snd (anext f t))) /\
+                 flat p' = true /\ forall f0, reset f0 p' = reset f0 p.
+  Proof.
+    intro Hf. rewrite step_preset_eq. destruct (anext f t) as [ot t']. cbn [snd].
+    assert (Same : forall o : outcome val, exists o' p', (o, PReset (AP p) t') = (o', PReset (AP p') t') /\
+                     flat p' = true /\ forall f0, reset f0 p' = reset f0 p) by (intro o; exists o, p; auto).
+    assert (Polled : forall q, flat q = true -> (forall f0, reset f0 q = reset f0 p) ->
+              exists o' p', (let '(o, pattern2) := anext f (AP q) in (o, PReset pattern2 t')) = (o', PReset (AP p') t') /\
+                     flat p' = true /\ forall f0, reset f0 p' = reset f0 p).
+    { intros q Fq Rq. destruct f as [|f'']; [exists OutOfFuel, q; auto|]. rewrite anext_pattern.
+      pose proof (flat_closed f'' q Fq) as Fq'. pose proof (fun f0 => flat_reset_step f0 f'' q Fq) as Rq'.
+      destruct (step f'' q) as [o q']. cbn [snd] in *. exists o, q'. split; [reflexivity|]. split; [exact Fq'|].
+      intro f0. rewrite Rq'. apply Rq. }
+    destruct ot as [vt| | | |]; try apply Same.
+    destruct (if is_none vt then Yield false else cmp OGt vt (VInt 0)) as [[|]| | | |]; try apply Same; cbv zeta.
+    - destruct f as [|f'']; [apply Same|]. rewrite areset_strict_pattern. destruct (reset f'' p) as [q| | | |] eqn:R; cbn [omap obind]; try apply Same.
+      destruct (flat_reset_reset _ _ _ Hf R) as [Fq Rq]. apply Polled; assumption.
+    - apply Polled; [exact Hf|reflexivity].
+  Qed.
+
   (** ** the reset fragment: any nesting of the operator / unary / stutter / counter / pad classes over leaves *)
   Inductive rpat : pat -> Prop :=
   | RP_leaf p : leaf_reset p = true -> rpat p
@@ -469,9 +595,22 @@ Section Reset.
   | RP_subsequence p offset length pos values : rarg p -> rarg offset -> rarg length -> rpat (PSubsequence p offset length pos values)
   | RP_wrap p mn mx : rarg p -> rpat (PWrap p mn mx)
   | RP_ref p : rarg p -> rpat (PRef p)
+  (* PReset over a class whose state is counters only (scalar parameters), any trigger of the fragment *)
+  | RP_reset p t : flat p = true -> rarg t -> rpat (PReset (AP p) t)
   with rarg : arg -> Prop :=
   | RA_val v : rarg (AV v)
   | RA_pat p : rpat p -> rarg (AP p).
+
+  Lemma flat_rpat p : flat p = true -> rpat p.
+  Proof.
+    intro Hf. destruct p; try discriminate Hf.
+    - apply RP_leaf. reflexivity.
+    - apply RP_leaf. exact Hf.
+    - cbn in Hf. flat_shape Hf. apply RP_series; apply RA_val.
+    - cbn in Hf. flat_shape Hf. apply RP_range; apply RA_val.
+    - cbn in Hf. flat_shape Hf. apply RP_geom; apply RA_val.
+    - cbn in Hf. flat_shape Hf. apply RP_impulse; apply RA_val.
+  Qed.
 
   (** ** the fragment is closed under next() (shape preservation) *)
   Lemma leaf_closed f p : leaf_reset p = true -> leaf_reset (snd (step f p)) = true.
@@ -549,6 +688,8 @@ Section Reset.
           closed_case IHs IHv IHn.
         * rewrite step_wrap_eq. closed_case IHs IHv IHn.
         * rewrite step_anyref_eq. closed_case IHs IHv IHn.
+        * destruct (preset_step f p0 t H) as [o [p' [E [Fp' _]]]]. rewrite E. cbn [snd].
+          apply RP_reset; [exact Fp'|apply IHn; assumption].
       + intros a [v|p Hp]; [exact (RA_val v)|]. rewrite value_pattern. pose proof (IHs p Hp) as K.
         destruct (step f p). apply RA_pat. exact K.
       + intros a [v|p Hp]; [exact (RA_val v)|]. rewrite anext_pattern. pose proof (IHs p Hp) as K.
@@ -681,6 +822,8 @@ Section Reset.
       reset_case f0 IH reset_subsequence_eq.
     - rewrite step_wrap_eq. reset_case f0 IH reset_wrap_eq.
     - rewrite step_anyref_eq. reset_case f0 IH reset_ref_eq.
+    - destruct (preset_step f' p0 t H) as [o [p' [E [_ Rp']]]]. rewrite E. cbn [snd].
+      rewrite !reset_preset_eq. cbn [reset_field]. rewrite Rp', (arg_anext f0 IH f' t H0). reflexivity.
   Qed.
 
   (** ** after any history: k calls of next() (each with any outcome), then reset() *)
